@@ -430,6 +430,12 @@ func decodeValue(t *Type, format int16, b []byte) (any, *pgErr) {
 		if !json.Valid(b) {
 			return nil, errf("22P02", "invalid input syntax for type json")
 		}
+		if t.OID == 3802 {
+			// jsonb is stored decomposed: duplicate keys collapse (last wins), keys are ordered by length, then bytes
+			if nb, ok := normalizeJSONB(b); ok {
+				return nb, nil
+			}
+		}
 		return append([]byte{}, b...), nil
 	case kOpaque:
 		out, err := transcode(t.OID, format, 1, b)
